@@ -222,7 +222,21 @@ func (w *World) RemoveB(pass string) error {
 // RemoveRun runs the removal of wallet B to completion, as the worker goroutine would.
 func (w *World) RemoveRun() error {
 	w.I.W.VerifDrainTasks()
+	// the removal runs in the background while ANOTHER wallet is the one in use: that
+	// selection must survive it ("every other wallet's ... ability to build and sign
+	// transactions are unchanged")
+	selected := w.I.W.CurrentWallet()
+	if A := w.Wallets["A"]; A != nil && (selected == "" || selected == w.Wallets["B"].ID) {
+		if _, uerr := w.I.W.UseWallet(A.ID); uerr == nil {
+			selected = A.ID
+		}
+	}
 	err := w.I.W.VerifRunRemove(w.Wallets["B"].ID)
+	if err == nil && selected != "" && selected != w.Wallets["B"].ID {
+		if now := w.I.W.CurrentWallet(); now != selected {
+			w.RemovalSideEffects = append(w.RemovalSideEffects, fmt.Sprintf("wallet %s was in use when the removal of ANOTHER wallet completed; afterwards the wallet in use is %q", selected, now))
+		}
+	}
 	w.noteLeak(err)
 	w.statusCache = nil
 	// worker() queues a failed removal again: CompleteTasks repeats it
@@ -475,6 +489,9 @@ func (w *World) reRegisterB() error { return nil }
 // CheckRemoved is the C08 residue oracle: once wallet B is gone, nothing keyed by it or by
 // its addresses may remain anywhere in the raw database.
 func (w *World) CheckRemoved() []string {
+	if len(w.RemovalSideEffects) > 0 {
+		return append([]string{}, w.RemovalSideEffects...)
+	}
 	B := w.Wallets["B"]
 	if B == nil || w.TaskStatus("B") != "absent" {
 		return nil
